@@ -147,11 +147,16 @@ type RefResult struct {
 	Data   any // *ref.OMap tree or nil
 	Errors []ref.ExecError
 	Doc    *ast.QueryDocument
+	// MissingHits counts fields made unavailable by ReferenceMissing.
+	MissingHits int
 }
 
 // Reference executes op on the monolith. A non-nil error means the operation is not valid
 // for the supergraph (generator/oracle disagreement) or its variables do not coerce.
-func (w *World) Reference(op opgen.Op) (*RefResult, error) {
+func (w *World) Reference(op opgen.Op) (*RefResult, error) { return w.ReferenceMissing(op, nil) }
+
+// ReferenceMissing is Reference with some (object, response key) pairs unavailable.
+func (w *World) ReferenceMissing(op opgen.Op, missing func(ref.Obj, string) bool) (*RefResult, error) {
 	doc, errs := gqlparser.LoadQuery(w.Super, op.Query)
 	if errs != nil {
 		return nil, fmt.Errorf("gqlparser rejects the operation: %v", errs)
@@ -174,9 +179,9 @@ func (w *World) Reference(op opgen.Op) (*RefResult, error) {
 	if err != nil {
 		return nil, fmt.Errorf("variables do not coerce: %w", err)
 	}
-	ex := &ref.Exec{U: w.U, Super: w.Super, Schema: w.Super, Doc: doc, Vars: vars}
+	ex := &ref.Exec{U: w.U, Super: w.Super, Schema: w.Super, Doc: doc, Vars: vars, Missing: missing}
 	data, eerrs := ex.Run(opDef.Name)
-	return &RefResult{Data: data, Errors: eerrs, Doc: doc}, nil
+	return &RefResult{Data: data, Errors: eerrs, Doc: doc, MissingHits: ex.MissingHits}, nil
 }
 
 // Request is one recorded subgraph request.
